@@ -1578,3 +1578,26 @@ func init() {
 	prop("C02", "C03-R8")
 	prop("C01", "C03-R8")
 }
+
+func init() {
+	reg("C03-R9", "recovery re-applies an UPDATE record whatever its direction: TablePage.UpdateTuple refuses an update that makes the row shorter unless it is marked as rollback/undo (a forward update is relocated instead, so that its rollback always has room) — the rollback of a growing update logs exactly such a shrinking UPDATE record, so every UpdateTuple call of LogRecovery.Redo and Undo passes the constant true for isRollbackOrUndo; with false the compensation is skipped, the page is stamped, and the aborted value is back after the crash", func(w *World, r *Report) {
+		a := w.A()
+		n := 0
+		for _, name := range []string{"Redo", "Undo"} {
+			fn := w.Fn("recovery/log_recovery", "LogRecovery", name)
+			for _, f := range w.FuncAndHelpers(fn) {
+				for _, s := range sitesCalling(f, a.TPUpdate) {
+					n++
+					args := s.(ssa.CallInstruction).Common().Args
+					cv, isConst := constOf(args[len(args)-1])
+					r.Check(isConst && cv.Kind() == constant.Bool && constant.BoolVal(cv), name+":update-record-applied-in-both-directions"+ordinalIn(f, s, a.TPUpdate), "recovery applies UPDATE records as rollback/undo-capable updates", "UpdateTuple at "+w.InstrPos(s)+" is called with isRollbackOrUndo not the constant true: a shrinking record (the compensation of an aborted growing update) is refused with ErrRollbackDifficult and silently skipped")
+				}
+			}
+		}
+		r.Floor("UpdateTuple sites in Redo/Undo", n, 2)
+	})
+	prop("C03", "C03-R9")
+	prop("C02", "C03-R9")
+	prop("C01", "C03-R9")
+	prop("C20", "C03-R9")
+}
